@@ -127,6 +127,20 @@ def sym_psd(M):
     return asym, float(ev.min()), float(np.trace(M))
 
 
+STRETCH_MAX = 2000.0
+
+
+def ill_scaled(T, mean_height):
+    """
+    The default horizon is chosen from the 1e-15 tail of the tree height; when almost all trees are short but a slow
+    last epoch stretches the horizon to > 2000 mean tree heights, the Van Loan exponential (regularised with the first
+    epoch's rates) silently loses digits: measured on /repo 3e-9 of the raw scale at order 2 and 6e-7 at order 3 for
+    T / E[height] = 1.4e4, against <= 3e-12 at order 2 for T / E[height] <= 1.5e3 (no warning is logged).  Identities
+    between DIFFERENT Van Loan evaluations are only compared below this stretch.
+    """
+    return mean_height > 0 and T / mean_height > STRETCH_MAX
+
+
 def finite(*xs):
     return all(np.all(np.isfinite(np.asarray(x, dtype=float))) for x in xs)
 
